@@ -76,6 +76,26 @@ def coq_make(targets, obligation, timeout=2400):
     return out
 
 
+def coq_eval(name, imports, body, timeout=1800):
+    """compile a scratch .v file (imports + body with Eval commands) against the built development and
+    return coqc's output; used for evaluating decidable hypotheses of theorems on generated values"""
+    d = os.path.join(CACHE, "hyp")
+    os.makedirs(d, exist_ok=True)
+    path = os.path.join(d, name + ".v")
+    with open(path, "w", encoding="utf-8") as f:
+        f.write(imports + "\n" + body + "\n")
+    rc, out = sh(["coqc", "-Q", COQ, "hls", "-w", "-notation-overridden,-deprecated-hint-without-locality,-deprecated-syntactic-definition",
+                  "-o", os.path.join(d, name + ".vo"), path], cwd=d, timeout=timeout)
+    if rc != 0:
+        raise BuildError("hyp:%s" % name, out[-3000:])
+    return out
+
+
+def coq_str_of(text):
+    """a Coq term of type str (list of code points) for a Python string"""
+    return "[" + "; ".join(str(ord(ch)) for ch in text) + "]%N"
+
+
 def build_driver():
     ml = os.path.join(OCAML, "model.ml")
     if (not os.path.exists(DRIVER_BIN) or os.path.getmtime(DRIVER_BIN) < os.path.getmtime(ml)
